@@ -498,7 +498,8 @@ hwloc_nolibxml_import_diff(struct hwloc__xml_import_state_s *state,
 
   /* find root */
   ret = hwloc__nolibxml_import_find_child(state, &childstate, &tag);
-  if (ret < 0)
+  if (ret <= 0)
+    /* error, or no root tag at all (tag isn't set) */
     goto out_with_buffer;
   if (!tag || strcmp(tag, "topologydiff"))
     goto out_with_buffer;
